@@ -51,6 +51,16 @@ def job(j):
                 cmds.append('symlink /SL/l%03d %s' % (n, 't' * n))
                 cmds.append('ea_set /SL/l%03d user.k %s' % (n, 'v' * (200 if big else 12)))
             open(sp, 'w').write('\n'.join(cmds) + '\n')
+        elif prep[0] == 'xattrs':
+            # files carrying one attribute of every value length in the list (plus, optionally, a second small one): the in-inode area and the external
+            # block pass through "exactly full", "4 bytes left", ... "does not fit" -- all of them legal layouts that e2fsck must leave alone
+            Ls, second = prep[1], prep[2]
+            cmds = ['mkdir /XA']
+            for L in Ls:
+                cmds.append('write /dev/null /XA/f%04d' % L)
+                if second: cmds.append('ea_set /XA/f%04d user.bb %s' % (L, 'w' * second))
+                cmds.append('ea_set /XA/f%04d user.a %s' % (L, 'v' * L))
+            open(sp, 'w').write('\n'.join(cmds) + '\n')
         elif prep[0] == 'pattern':
             pat, bs = prep[1], prep[2]
             src = p + '.src'; gar = p + '.gar'
@@ -156,7 +166,7 @@ def main(tier, only=None):
     ck = Check('C05', tier, 'model_checking')
     E2FSCK = tool('e2fsck'); DEBUGFS = tool('debugfs'); fsweep.init_scratch()
     quick = tier == 'quick'
-    parts = only or ['a', 'b', 'c', 'd', 'e', 'f']
+    parts = only or ['a', 'b', 'c', 'd', 'e', 'f', 'g']
     jobs = []
     if 'a' in parts:
         for b in fsweep.SWEEP_BASES + ['needsrec']:
@@ -180,6 +190,14 @@ def main(tier, only=None):
         for base in (['ext2', 'ext4csum', 'eashare'] if quick else ['ext2', 'ext2dx', 'ext3', 'ext4', 'ext4csum', 'inline', 'eashare', 'bs4k', 'quota']):
             for big in (False, True):
                 jobs.append(('f', 'f/%s/symlinks1-120%s' % (base, '+bigea' if big else ''), base, ('symlinks', 1, 120, big), MODES))
+    if 'g' in parts:
+        for base, bs_ in ((('ext2', 1024), ('ext4csum', 1024), ('eashare', 1024)) if quick else (('ext2', 1024), ('ext3', 1024), ('ext4csum', 1024), ('eashare', 1024), ('inline', 1024), ('quota', 1024), ('bs4k', 4096), ('eainode', 1024))):
+            cap = bs_ - 32 - 4
+            allL = list(range(0, 130 if quick else 260)) + list(range(cap - (110 if quick else 200), cap - 8))
+            for second in (0, 9):
+                for i in range(0, len(allL), 20):
+                    Ls = allL[i:i + 20]
+                    jobs.append(('g', 'g/%s/xattr-len%d-%d%s' % (base, Ls[0], Ls[-1], '+second' if second else ''), base, ('xattrs', Ls, second), MODES))
     if 'e' in parts:
         import itertools
         for base, bs_, n in ((('ext4csum', 1024, 4),) if quick else (('ext4csum', 1024, 6), ('ext4', 1024, 6), ('bigalloc', 1024, 6), ('bs4k', 4096, 5))):
@@ -216,7 +234,7 @@ def main(tier, only=None):
         ck.part('d_summary_only_damage', mutants=ndj)
     ck.add(evaluations=runs, distinct_nontrivial=len(jobs) + ndj, states=len(jobs) + ndj, transitions=runs, traces_validated_against_impl=runs,
            rule='(a) every corpus image x 5 repair modes; (b) test directory holding the first n of a fixed name sequence (hard links), every n in 0..400, 2-3 sequences (short, 252-byte, mixed lengths), '
-                'on linear/indexed/csum/inline/bigalloc bases x modes, plus names differing only in case in ordinary directories of a casefold-feature filesystem; (c) a file of every block count 0..300 x {bmap2extent, -D}; (e) a file whose first n blocks are every pattern over {hole, written, unwritten(preallocated)} (quick n=4, thorough n=6; free space pre-filled with stale bytes) x modes; (f) a directory of symlinks of every target length 1..120, each with a small or a 200-byte extended attribute, on bases with 128- and 256-byte inodes x modes; (d) every single-field mutant of bitmap bits, counts, flags and checksum fields '
+                'on linear/indexed/csum/inline/bigalloc bases x modes, plus names differing only in case in ordinary directories of a casefold-feature filesystem; (c) a file of every block count 0..300 x {bmap2extent, -D}; (g) files with one attribute of every value length 0..130 and capacity-110..capacity of the external block (with and without a second attribute), i.e. every fill level of the in-inode area and of the block; (e) a file whose first n blocks are every pattern over {hole, written, unwritten(preallocated)} (quick n=4, thorough n=6; free space pre-filled with stale bytes) x modes; (f) a directory of symlinks of every target length 1..120, each with a small or a 200-byte extended attribute, on bases with 128- and 256-byte inodes x modes; (d) every single-field mutant of bitmap bits, counts, flags and checksum fields '
                 'x e2fsck -fy.  Oracle: exit in {0,1} and xck.tree (path,type,bytes,size,mode,owner,nlink,target,xattrs) identical before/after; (d) also second run clean',
            samples=[j[1] for j in jobs[:2]] + [j[1] for j in jobs[-2:]])
     ck.assumptions += ['xck.tree is the observer of "files" (independent reader); casefold/encrypted directories not in scope']
